@@ -43,3 +43,40 @@ package controller
 //@   ensures[C12.runs]     forall k, j :: k in f.pwmMap && 0 <= j && j < len(distinct(f)) && distinct(f)[j] <= k && (j == len(distinct(f))-1 || k < distinct(f)[j+1]) ==> f.pwmMap[distinct(f)[j]] == f.pwmMap[k]
 //@   ensures[C12.nonempty C01 C05] len(f.pwmMap) > 0 ==> len(distinct(f)) > 0
 //@   modifies f.pwmValuesWithDistinctTarget
+
+//@ sentinel ErrFanStalledAtMaxPwm
+
+// ---- regulation step ---------------------------------------------------------------------------------
+//@ pure floorOf(f *DefaultFanController) int = fans.fanMin(f.fan) + f.minPwmOffset
+//@ pure ctrlInv(f *DefaultFanController) bool = fans.fanWF(f.fan) && control_loop.loopWF(f.controlLoop) && f.curve != nil && 0 <= fans.fanMin(f.fan) && 0 <= f.minPwmOffset && floorOf(f) <= fans.fanMax(f.fan) && fans.fanMax(f.fan) <= 255 && (f.pwmMap != nil ==> mapInv(f)) && (f.lastSetPwm != nil ==> util.inInt32(*f.lastSetPwm))
+
+//@ func (*DefaultFanController).increaseMinPwmOffset
+//@   ensures f.minPwmOffset == old(f.minPwmOffset) + 1
+//@   modifies f.minPwmOffset, f.stats.MinPwmOffset, f.stats.IncreasedMinPwmCount
+
+//@ func (*DefaultFanController).ensureNoThirdPartyIsMessingWithUs
+//@   props C05
+//@   requires fans.fanWF(f.fan) && (f.pwmMap != nil ==> mapInv(f)) && (f.lastSetPwm != nil ==> util.inInt32(*f.lastSetPwm))
+//@   ensures f.stats.UnexpectedPwmValueCount >= old(f.stats.UnexpectedPwmValueCount)
+//@   modifies f.stats.UnexpectedPwmValueCount, f.fan.(*fans.HwMonFan).Pwm, f.fan.(*fans.FileFan).Pwm, f.fan.(*fans.CmdFan).Pwm, procWorld
+
+//@ func (*DefaultFanController).calculateTargetPwm
+//@   props C01 C02 C10
+//@   returns (target, err)
+//@   split f.fan
+//@   safety C09
+//@   requires ctrlInv(f)
+//@   atcall[rescaled] ensureNoThirdPartyIsMessingWithUs: minPwm <= target && target <= maxPwm && maxPwm == fans.fanMax(f.fan) && minPwm == floorOf(f)
+//@   ensures[C01.range C02 C05 C10] err == nil ==> old(fans.fanMin(f.fan)) <= target && target <= old(fans.fanMax(f.fan))
+//@   ensures[C01.inv C02 C05 C10]   ctrlInv(f)
+//@   ensures[C01.maxconst C02 C05 C10] fans.fanMax(f.fan) == old(fans.fanMax(f.fan)) && f.pwmMap == old(f.pwmMap) && f.lastSetPwm == old(f.lastSetPwm)
+//@   ensures[C02.floor]  err == nil && fans.fanNeverStop(f.fan) ==> target >= old(floorOf(f))
+//@   ensures[C02.perm]   floorOf(f) >= old(floorOf(f))
+//@   ensures[C02.raise]  f.minPwmOffset > old(f.minPwmOffset) ==> err == nil && old(f.lastSetPwm) != nil && target > old(*f.lastSetPwm) && floorOf(f) == old(floorOf(f)) + 1
+//@   ensures[nowrite C01 C02 C05 C10] pwmWrites == old(pwmWrites)
+//@   modifies f.minPwmOffset, f.stats.MinPwmOffset, f.stats.IncreasedMinPwmCount, f.stats.UnexpectedPwmValueCount
+//@   modifies f.fan.(*fans.HwMonFan).MinPwm, f.fan.(*fans.HwMonFan).RpmMovingAvg, f.fan.(*fans.HwMonFan).Pwm
+//@   modifies f.fan.(*fans.FileFan).Rpm, f.fan.(*fans.FileFan).Pwm, f.fan.(*fans.CmdFan).Rpm, f.fan.(*fans.CmdFan).Pwm
+//@   modifies f.controlLoop.(*control_loop.DirectControlLoop).lastTime
+//@   modifies each(*curves.LinearSpeedCurve).Value, each(*curves.FunctionSpeedCurve).Value, each(*curves.PidSpeedCurve).Value
+//@   modifies each(*util.PidLoop).integral, each(*util.PidLoop).error, each(*util.PidLoop).lastTime, procWorld
